@@ -250,7 +250,7 @@ def run_views(chk, which):
     drv = common.Driver()
     scratch = tempfile.mkdtemp(prefix='verif-wl-', dir='/var/tmp')
     bad, fails = [], []
-    n = chk.n(600, 8000)
+    n = chk.n(1500, 8000)
     try:
         for it in range(n):
             try:
